@@ -17,7 +17,7 @@ import (
 // Explore is a development aid (not a registered check): it generates statement-order mutants of package ro
 // (two adjacent simple statements swapped), runs the union of all rules on them and prints the mutants no rule
 // reports. Many of those are equivalent (the statements commute); the rest point at ordering premises no rule covers.
-func Explore(m *model.Model, repo, filter string) {
+func Explore(m *model.Model, repo, filter, kind string) {
 	up := &check.Property{ID: "ALL", Patterns: CorePatterns, Scope: []string{ro}}
 	seen := map[string]bool{}
 	for _, id := range IDs() {
@@ -29,8 +29,14 @@ func Explore(m *model.Model, repo, filter string) {
 		}
 	}
 	base := nonOKKeys(check.Run(up, m, "thorough", nil))
-	muts := genSwaps(m, filter)
-	fmt.Printf("explore: %d swap mutants, %d rules\n", len(muts), len(up.Rules))
+	var muts []mutant
+	switch kind {
+	case "delete":
+		muts = genDeletes(m, filter)
+	default:
+		muts = genSwaps(m, filter)
+	}
+	fmt.Printf("explore: %d %s mutants, %d rules\n", len(muts), kind, len(up.Rules))
 	remaining := muts
 	killed, compiled, nocompile := 0, 0, 0
 	var survivors []mutant
@@ -181,4 +187,64 @@ func oneLine(s string) string {
 		s = s[:70] + "…"
 	}
 	return s
+}
+
+// genDeletes: every expression statement that is a call is removed.
+func genDeletes(m *model.Model, filter string) []mutant {
+	p := m.Obj.Ro
+	var out []mutant
+	for _, f := range p.Syntax {
+		fname := m.Prog.Fset.Position(f.Pos()).Filename
+		if strings.HasSuffix(fname, "_test.go") || strings.Contains(fname, "zz_verif") {
+			continue
+		}
+		src, err := os.ReadFile(fname)
+		if err != nil {
+			continue
+		}
+		for _, d := range f.Decls {
+			fd, ok := d.(*ast.FuncDecl)
+			if !ok || fd.Body == nil {
+				continue
+			}
+			name := fd.Name.Name
+			expect := "ro." + name
+			if fd.Recv != nil && len(fd.Recv.List) == 1 {
+				tn := load.RecvTypeName(fd.Recv.List[0].Type)
+				name = tn + "." + name
+				expect = "ro." + tn
+			}
+			if filter != "" && !strings.Contains(name, filter) {
+				continue
+			}
+			if fd.Recv == nil && !fd.Name.IsExported() {
+				expect = ""
+			}
+			ast.Inspect(fd.Body, func(x ast.Node) bool {
+				var st ast.Stmt
+				switch y := x.(type) {
+				case *ast.ExprStmt:
+					if _, isCall := y.X.(*ast.CallExpr); isCall {
+						st = y
+					}
+				case *ast.DeferStmt:
+					st = y
+				case *ast.IncDecStmt:
+					st = y
+				}
+				if st == nil {
+					return true
+				}
+				off := func(pos token.Pos) int { return m.Prog.Fset.Position(pos).Offset }
+				pos := m.Prog.Fset.Position(st.Pos())
+				txt := string(src[off(st.Pos()):off(st.End())])
+				out = append(out, mutant{ID: fmt.Sprintf("delete:%s:%d:%d", name, pos.Line, pos.Column), Op: "delete", Group: name, File: fname,
+					Edits:  []edit{{off(st.Pos()), off(st.End()), "{}"}},
+					Expect: expect,
+					Desc:   fmt.Sprintf("%s %s  delete [%s]", name, m.Prog.Rel(st.Pos()), oneLine(txt))})
+				return true
+			})
+		}
+	}
+	return out
 }
